@@ -54,10 +54,14 @@ def gen_column(r, n, kind):
         return [Fraction(r.randint(0, 30) + r.choice([0, 1000]), 2) for _ in range(n)]
     if kind == "constant":
         return [Fraction(7, 2)] * n
+    if kind == "wide8":       # spans almost the whole int8 range: differences overflow int8
+        return [Fraction(r.randint(-120, 120)) for _ in range(n)]
+    if kind == "wide16":
+        return [Fraction(r.randint(-32000, 32000)) for _ in range(n)]
     raise ValueError(kind)
 
 
-KINDS = ["ties", "ints", "dyadic", "outliers", "bimodal", "constant"]
+KINDS = ["ties", "ints", "dyadic", "outliers", "bimodal", "constant", "wide8", "wide16"]
 
 
 def gen_fraction(r, n):
@@ -82,7 +86,7 @@ def gen_fraction(r, n):
 def make_input(cols, container, dtype):
     """Build what is handed to sample_hdi: 1-D if one column, else 2-D (m, n_cols)."""
     n = len(cols[0])
-    if dtype == "int":
+    if dtype != "float":
         conv = int
     else:
         conv = float
@@ -94,7 +98,7 @@ def make_input(cols, container, dtype):
         return data
     if container == "tuple":
         return tuple(tuple(row) if isinstance(row, list) else row for row in data)
-    return np.array(data, dtype=np.int64 if dtype == "int" else np.float64)
+    return np.array(data, dtype={"int": np.int64, "float": np.float64}.get(dtype) or np.dtype(dtype))
 
 
 def gen_case(r, tier):
@@ -112,6 +116,15 @@ def gen_case(r, tier):
     all_int = all(x.denominator == 1 for c in cols for x in c)
     dtype = "int" if all_int and r.random() < 0.5 else "float"
     container = r.choice(["ndarray", "ndarray", "list", "tuple"])
+    if dtype == "int" and container == "ndarray" and (r.random() < 0.6 or any(k.startswith("wide") for k in kinds)):
+        # "any dtype accepted": narrow and unsigned integer arrays whose values fit (their
+        # differences need not fit: int8 100 - (-100))
+        lo_v = min(int(x) for c in cols for x in c)
+        hi_v = max(int(x) for c in cols for x in c)
+        fits = [t for t in ("int8", "int16", "int32", "uint8", "uint16", "uint32", "uint64")
+                if np.iinfo(t).min <= lo_v and hi_v <= np.iinfo(t).max]
+        if fits:
+            dtype = fits[0] if any(k.startswith("wide") for k in kinds) else r.choice(fits[:3])
     f = gen_fraction(r, n)
     return {"cols": cols, "kinds": kinds, "n": n, "fraction": f, "dtype": dtype,
             "container": container}
